@@ -20,6 +20,14 @@ open NV.Gen.C02
 
 abbrev Id := String
 
+/-- the per-compile name spaces of one identifier besides the local one: dn.function_num, dn.global_num, dn.class_num -/
+inductive Kind
+  | fn | glob | cls
+  deriving Repr, DecidableEq
+
+def Kind.name : Kind → String
+  | .fn => "fn" | .glob => "global" | .cls => "class"
+
 /-- events of the nesting grammar (one per bookkeeping operation of the compiler) -/
 inductive Ev
   | addLocal (id : Id) (perm : Bool) (sem0 : Int)   -- add_local_name(id): permanent identifier?, sem_value before
@@ -28,7 +36,10 @@ inductive Ev
   | enterLit                                        -- `function (` ... : reallocate_locals? + deactivate + pointer move
   | leaveLit (d : Nat)                              -- end of a literal whose saved block lies under d abandoned ones
   | argTypes (k : Nat)                              -- define_new_function's copy of k argument types
-  | cleanup                                         -- clean_up_locals() (epilog and clean_parser)
+  | bind (k : Kind) (id : Id) (perm : Bool) (n : Nat) (sem0 : Int)
+      -- find_or_add_ident(id, FOA_GLOBAL_SCOPE) + `if (dn.<k> == -1) sem_value++; dn.<k> = n` (define_new_function,
+      -- copy_function, define_variable, class definitions); sem0 = sem_value before
+  | cleanup                                         -- clean_up_locals() + free_unused_identifiers() (epilog, clean_parser)
   | memReq (blk size : Nat) (sync : Option (Nat × Nat))
       -- allocate_in_mem_block / add_to_mem_block / insert_in_mem_block; `sync` = (current_size, max_size) found in
       -- the block: other code moves current_size too (icode.c grows the code blocks through prog_code,
@@ -45,7 +56,9 @@ inductive Ev
 inductive Out
   | ev (name : String) (cursor : Int) (size : Int)
   | ident (lnumNew : Int) (semAfter : Int) (name : Id) (perm : Bool) (lnumBefore : Int) (semBefore : Int)
-  | identEnd (name : Id) (delta : Int) (lnum : Int)
+  | identBind (kind : String) (after : Int) (semAfter : Int) (name : Id) (perm : Bool) (before : Int) (semBefore : Int)
+  | identClean (name : Id) (delta : Int)
+  | identEnd (name : Id) (delta : Int) (fn glob cls : Int) (lnum : Int)
   | localsEnd (cur max lOff tOff : Nat)
   | crash (what : String)
   deriving Repr, DecidableEq
@@ -134,14 +147,40 @@ def stepLoc (l : Loc) (e : Ev) : Loc × List Out :=
 /-! ## identifiers bound by locals -/
 
 structure Ids where
+  perm : Id → Bool        -- which names are permanent identifiers (efuns, simul efuns, reserved words): never freed
   live : List Id          -- identifiers in locals[0 .. lOff+cur), newest first
-  refs : Id → Int         -- sem_value references currently held by entries of locals[]
+  refs : Id → Int         -- sem_value, relative to its value before the first compile
   lnum : Id → Int         -- dn.local_num (-1 = none)
+  bnd : Kind → Id → Int   -- dn.function_num / dn.global_num / dn.class_num (-1 = none)
+  dirty : List Id         -- ident_dirty_list, newest first
   rt : List Int           -- runtime_locals[]
   perms : List Id         -- permanent identifiers seen so far (reported at end_new_file)
   bad : Bool
 
-def Ids.init : Ids := ⟨[], fun _ => 0, fun _ => -1, [], [], false⟩
+def Ids.init (P : Id → Bool) : Ids := ⟨P, [], fun _ => 0, fun _ => -1, fun _ _ => -1, [], [], [], false⟩
+
+/-- 1 when a name-space binding is set -/
+def b (x : Int) : Int := if x = -1 then 0 else 1
+
+def Ids.bsum (s : Ids) (j : Id) : Int := b (s.bnd .fn j) + b (s.bnd .glob j) + b (s.bnd .cls j)
+
+def updB (f : Kind → Id → Int) (k : Kind) (id : Id) (v : Int) : Kind → Id → Int :=
+  fun k' j => if k' = k ∧ j = id then v else f k' j
+
+/-- free_unused_identifiers, one dirty identifier: every set binding is cleared and gives back its reference -/
+def clearOne (s : Ids) (id : Id) : Ids :=
+  { s with refs := fun j => if j = id then s.refs j - s.bsum j else s.refs j,
+           bnd := fun k j => if j = id then -1 else s.bnd k j }
+
+def clearAll : List Id → Ids → Ids
+  | [], s => s
+  | id :: rest, s => clearAll rest (clearOne s id)
+
+/-- the identifier structures that are not permanent are freed: the next compile finds fresh ones -/
+def freeNonPerm (s : Ids) : Ids :=
+  { s with refs := fun j => if s.perm j then s.refs j else 0,
+           lnum := fun j => if s.perm j then s.lnum j else -1,
+           bnd := fun k j => if s.perm j then s.bnd k j else -1 }
 
 def upd (f : Id → Int) (k : Id) (v : Int) : Id → Int := fun j => if j = k then v else f j
 
@@ -193,9 +232,22 @@ def stepIds (l l' : Loc) (s : Ids) (e : Ev) : Ids × List Out :=
     match l.frames.drop d with
     | [] => (s, [])
     | f :: _ => (reactivate (popMany (l.lOff + l.cur - (f.lo + f.c)) s) l'.lOff l'.cur, [])
-  | .cleanup => (popMany (l.lOff + l.cur) s, [])
+  | .bind k id perm n sem0 =>
+    let before := s.bnd k id
+    let inc : Int := if before = -1 then 1 else 0
+    -- find_or_add_ident: a permanent identifier without per-compile bindings goes on the dirty list
+    let dirty := if s.perm id ∧ s.bnd .fn id = -1 ∧ s.bnd .glob id = -1 ∧ s.bnd .cls id = -1 then id :: s.dirty else s.dirty
+    ({ s with bnd := updB s.bnd k id n, refs := upd s.refs id (s.refs id + inc), dirty := dirty,
+              perms := if perm ∧ ¬ s.perms.contains id then s.perms ++ [id] else s.perms },
+     [.identBind k.name n (sem0 + inc) id perm before sem0])
+  | .cleanup =>
+    let s1 := popMany (l.lOff + l.cur) s
+    let s2 := clearAll s1.dirty s1
+    let o := (Out.ev "ident.free_unused" 0 0) :: s1.dirty.map (fun id => Out.identClean id (s2.refs id))
+    (freeNonPerm { s2 with dirty := [] }, o)
   | .lexEnd =>
-    (s, s.perms.map (fun id => Out.identEnd id (s.refs id) (s.lnum id)) ++ [.localsEnd l.cur l.max l.lOff l.tOff])
+    (s, s.perms.map (fun id => Out.identEnd id (s.refs id) (s.bnd .fn id) (s.bnd .glob id) (s.bnd .cls id) (s.lnum id))
+        ++ [.localsEnd l.cur l.max l.lOff l.tOff])
   | _ => (s, [])
 
 /-! ## mem_block -/
@@ -300,7 +352,7 @@ structure St where
   mem : Mem
   lex : Lex
 
-def St.init (N : Nat) : St := ⟨Loc.init N, Ids.init, Mem.init, Lex.init⟩
+def St.init (N : Nat) (P : Id → Bool := fun _ => false) : St := ⟨Loc.init N, Ids.init P, Mem.init, Lex.init⟩
 
 def step (s : St) (e : Ev) : St × List Out :=
   let (loc', o1) := stepLoc s.loc e
